@@ -76,7 +76,20 @@ type Condition struct {
 	propKey  string
 	operator Operator
 	value    string
+
+	// the date format of the environment the query was parsed with, if it was parsed - a value validated as a date
+	// in that format has to be read in that format whenever the condition is evaluated
+	dateFormat envs.DateFormat
 }
+
+// an environment which is another environment except for its date format
+type dateFormatEnvironment struct {
+	envs.Environment
+
+	dateFormat envs.DateFormat
+}
+
+func (e *dateFormatEnvironment) DateFormat() envs.DateFormat { return e.dateFormat }
 
 func NewCondition(propType PropertyType, propKey string, operator Operator, value string) *Condition {
 	return &Condition{
@@ -118,6 +131,11 @@ func (c *Condition) ValueAsNumber() (decimal.Decimal, error) {
 
 // ValueAsDate returns the value as a date if possible, or an error if not
 func (c *Condition) ValueAsDate(env envs.Environment) (time.Time, error) {
+	// the timezone is that of the given environment, but the value was written in the date format it was parsed with
+	if c.dateFormat != "" && c.dateFormat != env.DateFormat() {
+		env = &dateFormatEnvironment{Environment: env, dateFormat: c.dateFormat}
+	}
+
 	d, err := envs.DateTimeFromString(env, c.value, false)
 	if err != nil {
 		return d, err
